@@ -1,7 +1,7 @@
 //! Batch plans: which grammars (and variants / configurations) a property's batch consists of.
 use crate::gen::{self, Profile};
 use crate::model::*;
-use crate::util::{fnv64, seed_bytes};
+use crate::util::{fnv64, seed_bytes, Src};
 use proptest::test_runner::{RngAlgorithm, TestRng};
 use proptest::prelude::RngCore;
 use serde::{Deserialize, Serialize};
@@ -101,11 +101,444 @@ fn spec(id: String, profile: &str, model: Grammar) -> GrammarSpec {
     GrammarSpec { id, group: None, role: String::new(), profile: profile.to_string(), model, cfg: SpecCfg::default(), flags: SpecFlags::default(), exported: vec![] }
 }
 
+// ------------------------------------------------------------------------------------------------
+// left recursion: structured shapes (C07; also used by C10/C19/C20 mixes)
+// ------------------------------------------------------------------------------------------------
+const OPS: &[&str] = &["+", "-", "*", "/", "==", ".", "->", "é", "<", "%"];
+
+fn atom_rule(src: &mut Src, name: &str) -> RuleDef {
+    let mut d = vec![Directive::String];
+    if src.chance(180) {
+        d.push(Directive::NoSkipWs);
+    }
+    if src.chance(60) {
+        d.push(Directive::Position);
+    }
+    let body = match src.pick(3) {
+        0 => Expr::Range('a', 'c'),
+        1 => Expr::Seq(vec![Expr::Range('a', 'c'), Expr::Star(Box::new(Expr::Range('0', '9')))]),
+        _ => Expr::Choice(vec![Expr::lit("b"), Expr::lit("n"), Expr::Range('x', 'z')]),
+    };
+    RuleDef::Normal(NormalRule { name: name.into(), directives: d, body })
+}
+
+fn rec_dirs(src: &mut Src, export: bool) -> Vec<Directive> {
+    let mut d = vec![Directive::Leftrec];
+    if export {
+        d.push(Directive::Export);
+    }
+    if src.chance(70) {
+        d.push(Directive::Position);
+    }
+    if src.chance(50) {
+        d.push(Directive::NoSkipWs);
+    }
+    if src.chance(30) {
+        d.push(Directive::Memoize);
+    }
+    if src.chance(128) {
+        let k = src.pick(d.len());
+        d.rotate_left(k);
+    }
+    d
+}
+
+fn bref(field: &str, typ: &str, boxed: bool) -> Expr {
+    Expr::Ref { field: FieldName::Named(field.into()), boxed, typ: typ.into() }
+}
+
+fn caller(src: &mut Src, target: &str) -> RuleDef {
+    let body = match src.pick(6) {
+        0 => Expr::Seq(vec![bref("e", target, false), Expr::Eoi]),
+        1 => Expr::Seq(vec![Expr::Opt(Box::new(bref("e", target, false))), Expr::lit("!")]),
+        2 => Expr::Star(Box::new(Expr::Seq(vec![bref("e", target, false), Expr::lit(";")]))),
+        3 => Expr::Seq(vec![Expr::And(Box::new(Expr::anon(target))), bref("e", target, false)]),
+        4 => Expr::Choice(vec![
+            Expr::Seq(vec![bref("e", target, false), Expr::lit("y")]),
+            Expr::Seq(vec![bref("e", target, false), Expr::lit("z")]),
+        ]),
+        _ => Expr::Seq(vec![Expr::Not(Box::new(Expr::Seq(vec![Expr::anon(target), Expr::lit("?")]))), bref("e", target, false)]),
+    };
+    let mut d = vec![Directive::Export];
+    if src.chance(60) {
+        d.push(Directive::NoSkipWs);
+    }
+    RuleDef::Normal(NormalRule { name: "Start".into(), directives: d, body })
+}
+
+pub fn leftrec_grammar(src: &mut Src) -> (Grammar, SpecFlags) {
+    let mut flags = SpecFlags::default();
+    let mut rules = vec![];
+    let nops = 1 + src.pick(3);
+    let mut ops: Vec<&str> = vec![];
+    while ops.len() < nops {
+        let o = *src.choose(OPS);
+        if !ops.contains(&o) {
+            ops.push(o);
+        }
+    }
+    let shape = src.weighted(&[5, 4, 3, 3, 3]);
+    match shape {
+        0 | 3 => {
+            // direct struct style; shape 3: recursive alternatives not first
+            let mut arms: Vec<Expr> = ops.iter().map(|o| Expr::Seq(vec![bref("l", "E", true), Expr::lit(o), bref("r", "Atom", false)])).collect();
+            let base = bref("a", "Atom", false);
+            if shape == 3 {
+                let k = src.pick(arms.len());
+                arms.insert(k, base);
+                flags.sentinel_allowed = true;
+            } else {
+                arms.push(base);
+            }
+            let d = rec_dirs(src, true);
+            let plain = !d.contains(&Directive::Position) && shape == 0;
+            rules.push(RuleDef::Normal(NormalRule { name: "E".into(), directives: d, body: Expr::Choice(arms) }));
+            let atom = RuleDef::Normal(NormalRule {
+                name: "Atom".into(),
+                directives: vec![Directive::String, Directive::NoSkipWs],
+                body: Expr::Range('a', 'c'),
+            });
+            if plain {
+                flags.constructive = Some(LeftrecShape { rule: "E".into(), base: vec!["a".into(), "b".into(), "c".into()], ops: ops.iter().map(|s| s.to_string()).collect() });
+                rules.push(atom);
+            } else {
+                rules.push(atom_rule(src, "Atom"));
+            }
+            rules.push(caller(src, "E"));
+        }
+        1 => {
+            // enum style, indirect through non-memoized rules
+            let mut arms = vec![];
+            for (i, o) in ops.iter().enumerate() {
+                let n = format!("Bin{i}");
+                arms.push(Expr::Ref { field: FieldName::Override, boxed: src.chance(60), typ: n.clone() });
+                rules.push(RuleDef::Normal(NormalRule {
+                    name: n,
+                    directives: if src.chance(60) { vec![Directive::Position] } else { vec![] },
+                    body: Expr::Seq(vec![bref("l", "Expr", true), Expr::lit(o), bref("r", "Atom", false)]),
+                }));
+            }
+            arms.push(Expr::over("Atom"));
+            let mut d = rec_dirs(src, true);
+            d.retain(|x| *x != Directive::Position);
+            rules.insert(0, RuleDef::Normal(NormalRule { name: "Expr".into(), directives: d, body: Expr::Choice(arms) }));
+            rules.push(atom_rule(src, "Atom"));
+            rules.push(caller(src, "Expr"));
+        }
+        2 => {
+            // two levels
+            let mut d = rec_dirs(src, true);
+            d.retain(|x| *x != Directive::Position);
+            rules.push(RuleDef::Normal(NormalRule {
+                name: "Expr".into(),
+                directives: d,
+                body: Expr::Choice(vec![Expr::over("Add"), Expr::over("Term")]),
+            }));
+            rules.push(RuleDef::Normal(NormalRule {
+                name: "Add".into(),
+                directives: vec![],
+                body: Expr::Seq(vec![bref("l", "Expr", true), Expr::lit(ops[0]), bref("r", "Term", false)]),
+            }));
+            let mut d2 = rec_dirs(src, false);
+            d2.retain(|x| *x != Directive::Position);
+            rules.push(RuleDef::Normal(NormalRule {
+                name: "Term".into(),
+                directives: d2,
+                body: Expr::Choice(vec![Expr::over("Mul"), Expr::over("Atom")]),
+            }));
+            rules.push(RuleDef::Normal(NormalRule {
+                name: "Mul".into(),
+                directives: vec![],
+                body: Expr::Seq(vec![bref("l", "Term", true), Expr::lit(ops.get(1).copied().unwrap_or("*")), bref("r", "Atom", false)]),
+            }));
+            rules.push(atom_rule(src, "Atom"));
+            rules.push(caller(src, "Expr"));
+        }
+        _ => {
+            // exotic: recursion under lookahead / optional / through a nullable prefix
+            flags.sentinel_allowed = true;
+            let body = match src.pick(4) {
+                0 => Expr::Choice(vec![
+                    Expr::Seq(vec![Expr::Not(Box::new(Expr::anon("W"))), Expr::lit("b")]),
+                    Expr::Seq(vec![Expr::anon("W"), Expr::lit("x")]),
+                ]),
+                1 => Expr::Seq(vec![Expr::Opt(Box::new(bref("l", "W", true))), Expr::lit("x")]),
+                2 => Expr::Choice(vec![Expr::Seq(vec![Expr::anon("Via"), Expr::lit("x")]), Expr::lit("b")]),
+                _ => Expr::Choice(vec![
+                    Expr::Seq(vec![bref("l", "W", true), Expr::lit(ops[0])]),
+                    Expr::Seq(vec![Expr::And(Box::new(Expr::lit("b"))), Expr::anon("char")]),
+                ]),
+            };
+            rules.push(RuleDef::Normal(NormalRule { name: "W".into(), directives: rec_dirs(src, true), body }));
+            rules.push(RuleDef::Normal(NormalRule {
+                name: "Via".into(),
+                directives: vec![],
+                body: Expr::Seq(vec![Expr::Opt(Box::new(Expr::lit("q"))), Expr::anon("W")]),
+            }));
+            rules.push(caller(src, "W"));
+        }
+    }
+    (Grammar { rules }.normalize(), flags)
+}
+
+fn leftrec_specs(seed: u64, count: usize, wave: u64, prefix: &str, stats: &mut GenStats) -> Vec<GrammarSpec> {
+    let mut out = vec![];
+    let mut seen = std::collections::BTreeSet::new();
+    let mut idx = wave * 1_000_000;
+    while out.len() < count && stats.attempts < count * 50 + 100 {
+        let bytes = rng_bytes(seed, "leftrec", idx, 200);
+        idx += 1;
+        stats.attempts += 1;
+        let mut src = Src::new(&bytes);
+        let (g, flags) = leftrec_grammar(&mut src);
+        match gen::finish(g) {
+            Ok(g) => {
+                if seen.insert(g.hash64()) {
+                    let mut s = spec(format!("{prefix}{:04}", out.len()), "leftrec", g);
+                    s.flags = flags;
+                    out.push(s);
+                } else {
+                    *stats.rejected.entry("duplicate".into()).or_insert(0) += 1;
+                }
+            }
+            Err(why) => *stats.rejected.entry(why.to_string()).or_insert(0) += 1,
+        }
+    }
+    out
+}
+
+// ------------------------------------------------------------------------------------------------
+// variants
+// ------------------------------------------------------------------------------------------------
+fn strip_memo(g: &Grammar) -> Grammar {
+    let mut g = g.clone();
+    for r in &mut g.rules {
+        if let RuleDef::Normal(n) = r {
+            n.remove(&Directive::Memoize);
+        }
+    }
+    g
+}
+
+fn memo_variant(g: &Grammar, mask: &mut dyn FnMut(&str) -> bool) -> Grammar {
+    let mut g = strip_memo(g);
+    for r in &mut g.rules {
+        if let RuleDef::Normal(n) = r {
+            if !n.leftrec() && mask(&n.name) {
+                n.add(Directive::Memoize);
+            }
+        }
+    }
+    g
+}
+
+fn inline_includes(g: &Grammar) -> Grammar {
+    fn inl(g: &Grammar, e: &Expr, depth: usize) -> Expr {
+        match e {
+            Expr::Include(r) if depth < 32 => match g.normal(r) {
+                Some(n) => Expr::Group(Box::new(inl(g, &n.body, depth + 1))),
+                None => e.clone(),
+            },
+            Expr::Choice(v) => Expr::Choice(v.iter().map(|x| inl(g, x, depth)).collect()),
+            Expr::Seq(v) => Expr::Seq(v.iter().map(|x| inl(g, x, depth)).collect()),
+            Expr::Group(b) => Expr::Group(Box::new(inl(g, b, depth))),
+            Expr::Opt(b) => Expr::Opt(Box::new(inl(g, b, depth))),
+            Expr::Star(b) => Expr::Star(Box::new(inl(g, b, depth))),
+            Expr::Plus(b) => Expr::Plus(Box::new(inl(g, b, depth))),
+            Expr::Not(b) => Expr::Not(Box::new(inl(g, b, depth))),
+            Expr::And(b) => Expr::And(Box::new(inl(g, b, depth))),
+            other => other.clone(),
+        }
+    }
+    let mut out = g.clone();
+    for r in &mut out.rules {
+        if let RuleDef::Normal(n) = r {
+            n.body = inl(g, &n.body, 0);
+        }
+    }
+    out.normalize()
+}
+
+fn has_include(g: &Grammar) -> bool {
+    let mut found = false;
+    for n in g.normals() {
+        n.body.walk(&mut |e| {
+            if matches!(e, Expr::Include(_)) {
+                found = true
+            }
+        });
+    }
+    found
+}
+
+/// put a zero-width extern probe at the start of the body of up to 8 memoized rules
+fn add_probes(g: &Grammar) -> Grammar {
+    let mut out = g.clone();
+    let mut k = 0;
+    let mut probes = vec![];
+    for r in &mut out.rules {
+        if let RuleDef::Normal(n) = r {
+            if n.memoize() && !n.leftrec() && k < 8 {
+                let pname = format!("Probe{k}");
+                let body = std::mem::replace(&mut n.body, Expr::Eoi);
+                n.body = Expr::Seq(vec![Expr::anon(&pname), body]).normalize();
+                probes.push(RuleDef::Extern(ExternRule {
+                    name: pname,
+                    function: vec!["verif_core".into(), "hooks".into(), format!("ext_probe{k}")],
+                    ret: None,
+                }));
+                k += 1;
+            }
+        }
+    }
+    out.rules.extend(probes);
+    out
+}
+
+fn to_ctx(g: &Grammar) -> Grammar {
+    let mut g = g.clone();
+    let fix = |p: &mut Vec<String>| {
+        if let Some(last) = p.last_mut() {
+            if !last.starts_with("c_") && (last.starts_with("chk_") || last.starts_with("ext_")) {
+                *last = format!("c_{last}");
+            }
+        }
+    };
+    for r in &mut g.rules {
+        match r {
+            RuleDef::Normal(n) => {
+                for d in &mut n.directives {
+                    if let Directive::Check(p) = d {
+                        fix(p)
+                    }
+                }
+            }
+            RuleDef::Extern(e) => fix(&mut e.function),
+            RuleDef::CharClass(_) => {}
+        }
+    }
+    g
+}
+
 pub fn make(plan: &str, seed: u64, count: usize, tier: &str, wave: u64) -> (Vec<GrammarSpec>, serde_json::Value) {
     let mut stats = GenStats { attempts: 0, rejected: BTreeMap::new() };
     let mut specs = vec![];
     let _ = tier;
     match plan {
+        "leftrec" => specs = leftrec_specs(seed, count, wave, "g", &mut stats),
+        "mixed" | "sched" => {
+            let prof = Profile::by_name(if plan == "sched" { "memo" } else { "mixed" }).unwrap();
+            let nl = count / 5;
+            for (k, (g, _)) in profile_grammars(&prof, seed, count - nl, wave, &mut stats).into_iter().enumerate() {
+                specs.push(spec(format!("g{:04}", k), plan, g));
+            }
+            specs.extend(leftrec_specs(seed, nl, wave, "l", &mut stats));
+        }
+        "memo" => {
+            let prof = Profile::by_name("memo").unwrap();
+            let groups = (count / 4).max(1);
+            for (k, (g, idx)) in profile_grammars(&prof, seed, groups, wave, &mut stats).into_iter().enumerate() {
+                let bytes = rng_bytes(seed, "memo-mask", idx, 64);
+                let names: Vec<String> = g.normals().map(|n| n.name.clone()).collect();
+                let variants: Vec<(&str, Grammar)> = vec![
+                    ("none", strip_memo(&g)),
+                    ("all", memo_variant(&g, &mut |_| true)),
+                    ("sub1", memo_variant(&g, &mut |n| bytes[names.iter().position(|x| x == n).unwrap_or(0) % 64] & 1 == 1)),
+                    ("sub2", memo_variant(&g, &mut |n| bytes[names.iter().position(|x| x == n).unwrap_or(0) % 64] & 2 == 2)),
+                ];
+                for (vi, (role, vg)) in variants.into_iter().enumerate() {
+                    let mut s = spec(format!("g{:04}v{}", k, vi), plan, vg);
+                    s.group = Some(format!("m{:04}", k));
+                    s.role = role.to_string();
+                    specs.push(s);
+                }
+            }
+        }
+        "probes" => {
+            let prof = Profile::by_name("memo").unwrap();
+            for (k, (g, idx)) in profile_grammars(&prof, seed, count, wave, &mut stats).into_iter().enumerate() {
+                // half of the grammars: all rules memoized (global bound applies)
+                let all = idx % 2 == 0;
+                let g2 = if all { memo_variant(&g, &mut |_| true) } else { g };
+                let mut s = spec(format!("g{:04}", k), plan, add_probes(&g2));
+                s.role = if all { "all_memoized".into() } else { "subset".into() };
+                specs.push(s);
+            }
+        }
+        "include" => {
+            let prof = Profile::by_name("include").unwrap();
+            let want = (count / 2).max(1);
+            let mut k = 0;
+            let mut wv = wave * 16;
+            while k < want && wv < wave * 16 + 16 {
+                for (g, _) in profile_grammars(&prof, seed, want, wv, &mut stats) {
+                    if k >= want {
+                        break;
+                    }
+                    if !has_include(&g) {
+                        *stats.rejected.entry("no include".into()).or_insert(0) += 1;
+                        continue;
+                    }
+                    let inl = inline_includes(&g);
+                    if gen::validate(&inl).is_err() {
+                        *stats.rejected.entry("inlined variant not well-formed".into()).or_insert(0) += 1;
+                        continue;
+                    }
+                    let mut a = spec(format!("g{:04}a", k), plan, g);
+                    a.group = Some(format!("i{:04}", k));
+                    a.role = "include".into();
+                    let mut b = spec(format!("g{:04}b", k), plan, inl);
+                    b.group = a.group.clone();
+                    b.role = "inlined".into();
+                    specs.push(a);
+                    specs.push(b);
+                    k += 1;
+                }
+                wv += 1;
+            }
+        }
+        "hooks" => {
+            let mut prof = Profile::by_name("hooks").unwrap();
+            for (k, (g, _)) in profile_grammars(&prof, seed, count, wave, &mut stats).into_iter().enumerate() {
+                let ctx = k % 2 == 1;
+                let mut s = spec(format!("g{:04}", k), plan, if ctx { to_ctx(&g) } else { g });
+                s.cfg.user_ctx = ctx;
+                s.role = if ctx { "user_ctx".into() } else { "no_ctx".into() };
+                specs.push(s);
+            }
+            prof.user_ctx = false;
+        }
+        "types" => {
+            let prof = Profile::by_name("types").unwrap();
+            let derive_sets: [&[&str]; 4] = [&["Debug", "Clone"], &["Debug", "Clone", "PartialEq", "Eq"], &["Clone"], &[]];
+            for (k, (g, _)) in profile_grammars(&prof, seed, count, wave, &mut stats).into_iter().enumerate() {
+                let ds = derive_sets[k % 4];
+                let ctx = (k / 4) % 2 == 1;
+                let mut g = if ctx { to_ctx(&g) } else { g };
+                if !ds.contains(&"Clone") {
+                    g = strip_memo(&g);
+                }
+                if !ds.contains(&"Debug") {
+                    // user check functions of this harness need Debug; use the unbounded one
+                    for r in &mut g.rules {
+                        if let RuleDef::Normal(n) = r {
+                            for d in &mut n.directives {
+                                if let Directive::Check(p) = d {
+                                    let last = p.last_mut().unwrap();
+                                    *last = if last.starts_with("c_") { "c_chk_any".into() } else { "chk_any".into() };
+                                }
+                            }
+                        }
+                    }
+                }
+                let mut s = spec(format!("g{:04}", k), plan, g);
+                s.cfg.derives = ds.iter().map(|x| x.to_string()).collect();
+                s.cfg.user_ctx = ctx;
+                s.flags.compile_only = true;
+                s.role = format!("derives={:?} ctx={}", ds, ctx);
+                specs.push(s);
+            }
+        }
         _ => {
             let prof = Profile::by_name(plan).unwrap_or_else(|| panic!("unknown plan {plan}"));
             for (k, (g, _idx)) in profile_grammars(&prof, seed, count, wave, &mut stats).into_iter().enumerate() {
